@@ -3,6 +3,7 @@ package main
 import (
 	"encoding/json"
 	"fmt"
+	"math/big"
 
 	clip "github.com/bolom009/go-clipper2"
 )
@@ -52,6 +53,19 @@ func runMink(c minkCase) (out clip.Paths64, fault string) {
 	return
 }
 
+// sign of the exact doubled shoelace sum (own arithmetic: the judge must not lean on the library)
+func exactArea2Sign(p clip.Path64) int {
+	sum := new(big.Int)
+	for i := range p {
+		a, b := p[i], p[(i+1)%len(p)]
+		t := new(big.Int).Mul(big.NewInt(a.Y), big.NewInt(1))
+		t.Add(t, big.NewInt(b.Y))
+		d := new(big.Int).Sub(big.NewInt(a.X), big.NewInt(b.X))
+		sum.Add(sum, t.Mul(t, d))
+	}
+	return sum.Sign()
+}
+
 func c08Check(o *Oracle, c minkCase) (ok bool, kind, detail, resp string) {
 	out, fault := runMink(c)
 	if fault != "" {
@@ -64,7 +78,7 @@ func c08Check(o *Oracle, c minkCase) (ok bool, kind, detail, resp string) {
 	// region: inside the result <=> inside some parallelogram (non-zero over the quad family,
 	// whatever the orientation of each quad: compare with |w| via a positively re-oriented family)
 	for i, q := range quads {
-		if clip.Area64(q) < 0 {
+		if exactArea2Sign(q) < 0 {
 			quads[i] = clip.ReversePath(q)
 		}
 	}
@@ -93,7 +107,7 @@ func c08Check(o *Oracle, c minkCase) (ok bool, kind, detail, resp string) {
 
 func init() {
 	stages["c08-search"] = func(ctx *Ctx, cnt func(q, t int) int, replay string) Result {
-		col := NewCollector("C08", "search", "patterns (convex and non-convex grid polygons, stars, rectangles, either orientation) × paths (closed and open, incl. single-point, 2-point and collinear); the result is compared as a region with the union of the parallelograms path-edge ⊕ (±pattern-edge) (the swept set, see Props/C08) outside the 2-band of the parallelogram edges, checked canonical and non-overlapping, and sum(A,B) compared with sum(B,A); non-trivial = non-empty result with ≥ 2 judged faces")
+		col := NewCollector("C08", "search", "patterns (convex and non-convex grid polygons, stars, rectangles, either orientation) × paths (closed and open, incl. single-point, 2-point and collinear; a quarter of them translated by 2^31 … 2^40); the result is compared as a region with the union of the parallelograms path-edge ⊕ (±pattern-edge) (the swept set, see Props/C08) outside the 2-band of the parallelogram edges, checked canonical and non-overlapping, and sum(A,B) compared with sum(B,A); non-trivial = non-empty result with ≥ 2 judged faces")
 		parallelFor(ctx, cnt(8000, 100000), true, col, func(o *Oracle, i int) {
 			r := NewRng(ctx.Seed, "c08", i)
 			g := GenCfg{Grid: r.Range(2, 5), Unit: 10}
@@ -118,8 +132,18 @@ func init() {
 				a := g2.pt(r)
 				c.Path = clip.Path64{a, {X: a.X + 10, Y: a.Y + 20}, {X: a.X + 20, Y: a.Y + 40}}
 			}
+			far := "near"
+			if r.Chance(0.25) {
+				// the path far from the origin (the pattern stays small): quads of tens of units at
+				// coordinates of 2^31 … 2^40 — orientation tests and the union must not depend on where
+				// the figure sits
+				t := []int64{1 << 31, 1 << 33, 1 << 40}[r.Intn(3)]
+				dx, dy := t+int64(r.Range(-1000, 1000)), int64(r.Range(-1, 1))*t+int64(r.Range(-1000, 1000))
+				c.Path = clip.TranslatePath64(c.Path, dx, dy)
+				far = "far"
+			}
 			ok, kind, detail, resp := c08Check(o, c)
-			col.Eval(fmt.Sprint(c), statOf(resp, "faces") >= 2, fmt.Sprintf("sum=%v", c.IsSum), fmt.Sprintf("closed=%v", c.Closed), fmt.Sprintf("pathlen=%d", len(c.Path)))
+			col.Eval(fmt.Sprint(c), statOf(resp, "faces") >= 2, far, fmt.Sprintf("sum=%v", c.IsSum), fmt.Sprintf("closed=%v", c.Closed), fmt.Sprintf("pathlen=%d", len(c.Path)))
 			col.AddN("faces_judged", statOf(resp, "faces"))
 			col.Sample(c)
 			if !ok && !col.KindFull(kind) {
